@@ -57,3 +57,87 @@ pub proof fn lemma_blank_run_all(s: Seq<u8>, t: Seq<u8>)
     ensures blank_run(s, 0) == blank_run(t, 0)
 {
 }
+
+// ---- UTF-8 facts used for "all boundaries fall on character boundaries" ----
+pub proof fn lemma_str_valid(s: &str)
+    ensures valid_utf8(s.spec_bytes())
+{
+    encode_utf8_valid_utf8(s@);
+}
+
+pub proof fn lemma_boundary_after_ascii(s: Seq<u8>, i: int)
+    requires valid_utf8(s), 0 <= i < s.len(), s[i] < 0x80, is_char_boundary(s, i)
+    ensures is_char_boundary(s, i + 1)
+    decreases s.len()
+{
+    if i == 0 {
+        assert(length_of_first_scalar(s) == 1);
+        assert(is_char_boundary(pop_first_scalar(s), 0));
+    } else {
+        let l = length_of_first_scalar(s);
+        let p = pop_first_scalar(s);
+        assert(is_char_boundary(p, i - l));
+        assert(valid_utf8(p));
+        assert(p[i - l] == s[i]);
+        lemma_boundary_after_ascii(p, i - l);
+    }
+}
+
+pub proof fn lemma_ascii_not_continuation(b: u8)
+    requires b < 0x80
+    ensures !is_continuation_byte(b)
+{
+    assert(b < 0x80 ==> (b & 0xC0) != 0x80) by (bit_vector);
+}
+
+// an ASCII byte sits between two character boundaries
+pub proof fn lemma_ascii_boundaries(s: Seq<u8>, i: int)
+    requires valid_utf8(s), 0 <= i < s.len(), s[i] < 0x80
+    ensures is_char_boundary(s, i), is_char_boundary(s, i + 1)
+{
+    lemma_ascii_not_continuation(s[i]);
+    is_char_boundary_iff_not_is_continuation_byte(s, i);
+    lemma_boundary_after_ascii(s, i);
+}
+
+// maximal run of bytes satisfying a byte class, as a spec-level closure
+pub open spec fn run_of(s: Seq<u8>, from: int, cls: spec_fn(u8) -> bool) -> int
+    decreases s.len() - from
+{
+    if 0 <= from < s.len() && cls(s[from]) { 1 + run_of(s, from + 1, cls) } else { 0 }
+}
+
+pub proof fn lemma_run_of_bound(s: Seq<u8>, from: int, cls: spec_fn(u8) -> bool)
+    requires 0 <= from <= s.len()
+    ensures 0 <= run_of(s, from, cls) <= s.len() - from
+    decreases s.len() - from
+{
+    if from < s.len() && cls(s[from]) { lemma_run_of_bound(s, from + 1, cls); }
+}
+
+// every byte inside the run is in the class, the byte after it (if any) is not
+pub proof fn lemma_run_of_members(s: Seq<u8>, from: int, cls: spec_fn(u8) -> bool, k: int)
+    requires 0 <= from <= s.len(), 0 <= k < run_of(s, from, cls)
+    ensures from + k < s.len(), cls(s[from + k])
+    decreases k
+{
+    lemma_run_of_bound(s, from, cls);
+    if k > 0 { lemma_run_of_members(s, from + 1, cls, k - 1); }
+}
+
+// a run of ASCII bytes starting on a boundary ends on a boundary
+pub proof fn lemma_ascii_run_boundary(s: Seq<u8>, from: int, cls: spec_fn(u8) -> bool)
+    requires valid_utf8(s), 0 <= from <= s.len(), is_char_boundary(s, from),
+             forall|b: u8| #[trigger] cls(b) ==> b < 0x80
+    ensures is_char_boundary(s, from + run_of(s, from, cls))
+    decreases s.len() - from
+{
+    if from < s.len() && cls(s[from]) {
+        lemma_boundary_after_ascii(s, from);
+        lemma_ascii_run_boundary(s, from + 1, cls);
+    }
+}
+
+pub open spec fn is_dec_digit(b: u8) -> bool { b == 0x5f || (0x30 <= b <= 0x39) }
+pub open spec fn is_hex_digit(b: u8) -> bool { b == 0x5f || (0x30 <= b <= 0x39) || (0x61 <= b <= 0x66) || (0x41 <= b <= 0x46) }
+pub open spec fn is_bin_digit(b: u8) -> bool { b == 0x5f || b == 0x30 || b == 0x31 }
